@@ -135,3 +135,50 @@ def c16(shape, choices, k):
     if err is not None:
         return "%s k=%d: failed %r" % (shape, k, err)
     return None
+
+
+# ------------------------------------------------------------------ C18
+def c18(i, j, typed, use_async, choices):
+    """late assignment node_i.inputs.x = node_j.out (back edges and self edges included); the submission must end
+    with outputs or an ordinary error within budgets derived from the code"""
+    import pydra.engine.graph as G
+    from crosshair.tracers import NoTracing
+    E.reset()
+    R.clear()
+    S.install()
+    S.reset(choices)
+    calls = {"n": 0}
+    real = G.DiGraph._sorting
+
+    def budgeted(self, notsorted_list, predecessors):
+        calls["n"] += 1
+        if calls["n"] > 60:          # sorting n nodes needs at most n rounds of _sorting (each places >= 1 node)
+            raise S.BudgetExceeded("DiGraph._sorting called more than 60 times for 3-5 nodes")
+        return real(self, notsorted_list, predecessors)
+
+    G.DiGraph._sorting = budgeted
+    R.FLAGS["late"] = None if i < 0 else (i, j)
+    d = E.scratch()
+    res = err = None
+    try:
+        task = D.LateAssign(x=1, typed=typed)
+        if use_async:
+            res, err, ev = S.run_async(task, d, choices)
+        else:
+            try:
+                res = task(cache_root=d, worker="debug")
+            except Exception as e:
+                err = e
+    except Exception as e:
+        err = e
+    finally:
+        G.DiGraph._sorting = real
+        R.FLAGS.pop("late", None)
+        E.cleanup(d)
+    T.reach()
+    desc = "late assignment %s.x = %s.out (%s fields, %s loop)" % ("abc"[i] if i >= 0 else "-", "abc"[j], "typed" if typed else "Any", "async" if use_async else "sync")
+    if isinstance(err, S.BudgetExceeded):
+        return "%s: the submission does not terminate (%s)" % (desc, err)
+    if err is None and res is None:
+        return "%s: neither outputs nor an error" % desc
+    return None
